@@ -3,7 +3,9 @@ from the live code, theorems re-checked by the kernel).  The oracle recomputes t
 on the live classes directly and through the dict that PacketReactor builds."""
 import extract
 
-EXTRACT = ['ids']
+EXTRACT = ['ids', 'versions', 'gen.c06dispatch']
+EXTRA_PROPS = ['C06Dispatch']
+
 RULE = ("exhaustive: 8 state/direction tables x every known protocol version; a case = one "
         "(table, version) row; non-trivial = row with at least one registered class")
 
@@ -93,6 +95,90 @@ def run(ctx):
         minecraft.initglobals(use_known_records=True)
     ctx.extra['unsupported_versions_report'] = unsupported_report[:40]
     ctx.extra['unsupported_versions_with_issues'] = len(unsupported_report)
+    dispatch_tie(ctx)
+
+
+def dispatch_tie(ctx):
+    """Tie of Model/C06Dispatch.lean (driver c06dict / c06get / c06classes / c06resolve) to the real
+    `PacketReactor.__init__` comprehension: a subclass whose `get_clientbound_packets` returns an ORDERED
+    list of real packet classes (shuffled, truncated, with duplicates), built on a stub `.context`."""
+    import minecraft
+    from minecraft.networking import connection as C
+    from minecraft.networking import packets
+    rng = ctx.rng
+    mods = [packets.clientbound.play, packets.clientbound.login, packets.clientbound.status,
+            packets.serverbound.play]
+    vers = sorted(minecraft.SUPPORTED_PROTOCOL_VERSIONS)
+    k1 = [v for v in (317, 336, 337, 343, 344, 389, 390, 391, 392) if v in vers]
+
+    class Stub:
+        pass
+
+    def reactor(order, context):
+        class R(C.PacketReactor):
+            get_clientbound_packets = staticmethod(lambda c, order=order: list(order))
+        s = Stub()
+        s.context = context
+        return R(s)
+
+    reqs, expect, cases = [], [], []
+
+    def add(req, exp, case):
+        reqs.append(req)
+        expect.append(exp)
+        cases.append(case)
+
+    for n in range(ctx.scale(150, 1500)):
+        pv = rng.choice(vers + k1 * 10) if k1 else rng.choice(vers)
+        context = C.ConnectionContext(protocol_version=pv)
+        mod = rng.choice(mods)
+        classes = sorted(mod.get_packets(context), key=lambda c: c.__name__)
+        classes = [c for c in classes if type(c.get_id(context)) is int]
+        rng.shuffle(classes)
+        order = classes[:rng.randint(0, len(classes))]
+        if len(order) > 6 and rng.random() < 0.5:
+            order = order[:rng.randint(0, 6)]
+        if order and rng.random() < 0.2:      # the same class twice is legal in a list, too
+            order.append(rng.choice(order))
+        ents = [(c.__name__, c.get_id(context)) for c in order]
+        tok = ','.join('%s:%d' % e for e in ents) or '-'
+        r = reactor(order, context)
+        items = sorted((k, v.__name__) for k, v in r.clientbound_packets.items())
+        case = {'version': pv, 'ents': tok}
+        add('c06dict ' + tok, 'ok ' + (','.join('%d:%s' % kv for kv in items) or '-'), case)
+        for i in sorted(set([e[1] for e in ents][:3] + [rng.randint(0, 100)])):
+            got = r.clientbound_packets.get(i)
+            add('c06get %s %d' % (tok, i), 'ok ' + (got.__name__ if got else 'base'), dict(case, id=i))
+            # c06classes: the candidates, in list order, computed from the real get_id values
+            add('c06classes %s %d' % (tok, i),
+                'ok ' + (','.join(c.__name__ for c in order if c.get_id(context) == i) or '-'), dict(case, id=i))
+        # c06resolve: some get_id raises -> the constructor raises; otherwise the (class, key) pairs in the
+        # order the comprehension evaluated them
+        calls = []
+        bad = set(j for j in range(len(order)) if rng.random() < 0.15) if rng.random() < 0.5 else set()
+        wrapped = []
+        for j, c in enumerate(order):
+            def get_id(context_, c=c, j=j):
+                if j in bad:
+                    raise AttributeError('no id')
+                i = c.get_id(context_)
+                calls.append((c.__name__, i))
+                return i
+            wrapped.append(type(c.__name__, (c,), {'get_id': staticmethod(get_id)}))
+        row = ','.join('%s:%s' % (n_, 'x' if j in bad else i) for j, (n_, i) in enumerate(ents)) or '-'
+        try:
+            reactor(wrapped, context)
+            exp = 'ok ' + (','.join('%s:%d' % e for e in calls) or '-')
+        except AttributeError:
+            exp = 'none'
+        add('c06resolve ' + row, exp, dict(case, row=row))
+    outs = ctx.driver.ask(reqs)
+    for req, exp, mo, case in zip(reqs, expect, outs, cases):
+        ctx.case(('c06dispatch', req))
+        ctx.count('dispatch.' + req.split()[0])
+        if mo != exp:
+            ctx.disagree('PacketReactor dict / lookup (%s)' % req.split()[0], dict(case, request=req), mo, exp)
+    ctx.extra['c06dispatch_pairs'] = ctx.extra.get('c06dispatch_pairs', 0) + len(reqs)
 
 
 def replay(ctx, rp):
